@@ -506,4 +506,30 @@ theorem close_keeps_items_take_gets_nil (w : World) (f c : Nat) :
 example : let w := (supPush Cfg.good (World.start fun _ => 0) 0 90010).1
           (w.chans 0).items = [90010] ∧ (w.chans 0).writePending = [] ∧ w.ghost.pushed = [(0, 90010)] := by decide
 
+/-- `(ev/full c)` tells what a give would do: with no taker waiting, `(ev/give c x)` on an open channel waits exactly when
+    `ev/full` is true (`count >= limit` there, `count + 1 > limit` in push_with_lock). -/
+theorem full_iff_give_waits (w : World) (f c x : Nat) (w' : World) (b : Bool)
+    (h : chanPush currentCfg w f c x 0 = .ok w' b) (hr : hasLiveReader w.fibers (w.chans c).readPending = false) :
+    b = true ↔ chanFull w c = true := by
+  have hb := give_blocks_iff w f c x w' b h
+  rw [hr] at hb
+  simp only [Bool.false_eq_true, false_or] at hb
+  unfold chanFull
+  simp only [ge_iff_le, decide_eq_true_eq]
+  cases b
+  · have := hb.mp rfl; simp; omega
+  · simp only [true_iff]
+    have : ¬ (w.chans c).items.length < (w.chans c).limit := fun hl => by have := hb.mpr hl; cases this
+    omega
+
+/-- `(ev/count c)` after any action sequence = number of values pushed into `c` minus number handed out by it;
+    `(ev/capacity c)` never changes. -/
+theorem count_capacity_law (limits : Nat → Nat) (as : List Action) (c : Nat) :
+    let w := run currentCfg (World.start limits) as
+    (onChan w.ghost.pushed c).length = (onChan w.ghost.handed c).length + chanCount w c := by
+  intro w
+  have := fifo_per_channel limits as c
+  show (onChan (run currentCfg (World.start limits) as).ghost.pushed c).length = _
+  rw [this, List.length_append]; rfl
+
 end JanetModel.Props.C06
